@@ -40,9 +40,10 @@ const (
 	opYield  // always enabled (atomics, explicit points)
 	opOnce   // sync.Once.Do
 	opCustom // enabled by a predicate
+	opSleep  // enabled after other goroutines have taken wakeAfter more decisions, or when nothing else can run
 )
 
-var kindNames = [...]string{"start", "lock", "rlock", "wgwait", "send", "recv", "select", "yield", "once", "custom"}
+var kindNames = [...]string{"start", "lock", "rlock", "wgwait", "send", "recv", "select", "yield", "once", "custom", "sleep"}
 
 type selCase struct {
 	send bool
@@ -60,6 +61,7 @@ type op struct {
 	cases  []selCase
 	hasDef bool
 	pred   func() bool
+	wakeAt int // opSleep: number of scheduling decisions after which the sleeper may run
 	// filled in by the scheduler / partner:
 	completed bool // rendezvous already performed by the partner
 	chosen    int  // select: chosen case (-1 default)
@@ -75,6 +77,8 @@ type G struct {
 	pending *op
 	done    bool
 	name    string
+	tag     string
+	sleeps  int
 }
 
 // PointRec records one scheduling decision.
@@ -312,12 +316,13 @@ func panicSite(st string) string {
 
 // Go starts f as a new controlled goroutine (or a plain goroutine outside a run).
 func Go(f func()) {
-	e, _ := me()
+	e, parent := me()
 	if e == nil {
 		go f()
 		return
 	}
-	e.spawn("", f)
+	g := e.spawn("", f)
+	g.tag = parent.tag
 }
 
 // ---------------------------------------------------------------------------
@@ -460,6 +465,10 @@ func (e *Exec) altsOf(g *G) []alt {
 		if p.pred() {
 			return []alt{{g: g}}
 		}
+	case opSleep:
+		if len(e.Points) >= p.wakeAt {
+			return []alt{{g: g}}
+		}
 	case opSend, opRecv:
 		return e.caseAlts(g, 0, p.cases[0])
 	case opSelect:
@@ -487,6 +496,15 @@ func (e *Exec) pickLocked(self *G) *G {
 	for _, g := range e.gs {
 		if g != self {
 			alts = append(alts, e.altsOf(g)...)
+		}
+	}
+	if len(alts) == 0 {
+		// nothing can run: time passes, the sleeper with the lowest id wakes up
+		for _, g := range e.gs {
+			if !g.done && g.pending != nil && g.pending.kind == opSleep {
+				alts = append(alts, alt{g: g})
+				break
+			}
 		}
 	}
 	if len(alts) == 0 {
@@ -578,6 +596,56 @@ func (e *Exec) point(g *G, o *op) {
 		}
 	}
 	g.pending = nil
+}
+
+// Sleep models a short real-time sleep: the caller is parked until the other
+// goroutines have taken `steps` more scheduling decisions, or nothing else can run.
+func Sleep(steps int) {
+	e, g := me()
+	if e == nil {
+		return
+	}
+	g.sleeps++
+	e.mu.Lock()
+	at := len(e.Points) + steps
+	e.mu.Unlock()
+	e.point(g, &op{kind: opSleep, wakeAt: at})
+}
+
+// Sleeps returns how many times the calling goroutine has called Sleep (a virtual clock).
+func Sleeps() int {
+	_, g := me()
+	if g == nil {
+		return 0
+	}
+	return g.sleeps
+}
+
+// SetTag names the calling controlled goroutine (harness bookkeeping); Tag returns it.
+// A goroutine started with Go inherits its parent's tag.
+func SetTag(t string) {
+	if _, g := me(); g != nil {
+		g.tag = t
+	}
+}
+
+func Tag() string {
+	if _, g := me(); g != nil {
+		return g.tag
+	}
+	return ""
+}
+
+// Hooks lets a harness supply environment functions that rewritten code calls
+// through configured call replacements, e.g. vsched_.Hook("lstat").(func(string) (os.FileInfo, error)).
+var Hooks = map[string]any{}
+
+func Hook(name string) any {
+	h, ok := Hooks[name]
+	if !ok {
+		panic("vsched: no hook " + name)
+	}
+	return h
 }
 
 // Point is an explicit, always-enabled scheduling point.
